@@ -1110,7 +1110,9 @@ def check_listing_inverts_escape(ck, R):
     from urllib.parse import unquote as _uq
     ls = FA(ck, FSDS + ".list_keys_nonversioned")
     ek = FA(ck, FSDS + "._escape_key")
-    pairs = _escape_pairs(ek)
+    from .c11 import _unrolled
+    # (a loop over a literal table of (character, code) rows is the chain of replacements it stands for)
+    pairs = _escape_pairs(_unrolled(ek))
     if pairs is None:
         raise AnalysisError("%s: the key escape is neither a chain of replace(<char>, <code>) nor <code>.join(key.split(<char>))" % ek.qual)
     oke = any(a == ":" for a, b in pairs) and all(len(a) == 1 and b != a and _uq(b) == a for a, b in pairs)
